@@ -151,6 +151,7 @@ impl<'a> ScriptedSource<'a> {
 
 impl<'a> Read for ScriptedSource<'a> {
     fn read(&mut self, buf: &mut [u8]) -> io::Result<usize> {
+        let _harness = crate::alloc::PauseGuard::new();
         check_budget(&self.trace);
         let call = self.calls;
         self.calls += 1;
@@ -232,6 +233,7 @@ impl ScriptedSink {
 
 impl Write for ScriptedSink {
     fn write(&mut self, buf: &[u8]) -> io::Result<usize> {
+        let _harness = crate::alloc::PauseGuard::new();
         check_budget(&self.trace);
         let call = self.calls;
         self.calls += 1;
@@ -290,6 +292,7 @@ impl Write for ScriptedSink {
     }
 
     fn flush(&mut self) -> io::Result<()> {
+        let _harness = crate::alloc::PauseGuard::new();
         check_budget(&self.trace);
         let call = self.flush_calls;
         self.flush_calls += 1;
@@ -382,6 +385,7 @@ pub fn install_entropy(tag: u64, trace: TraceRef) -> Rc<RefCell<EntropyLog>> {
     let l2 = log.clone();
     let mut ctr: u64 = 0;
     kestrel_crypto::verif::set_entropy_source(Some(Box::new(move |buf: &mut [u8]| {
+        let _harness = crate::alloc::PauseGuard::new();
         let mut off = 0;
         while off < buf.len() {
             let mut block = tag.to_be_bytes().to_vec();
@@ -416,6 +420,7 @@ pub fn install_seal_observer(trace: TraceRef) -> Rc<RefCell<SealLog>> {
     let log = Rc::new(RefCell::new(SealLog { seen: BTreeMap::new(), seals: 0, reuse: None }));
     let l2 = log.clone();
     kestrel_crypto::verif::set_seal_observer(Some(Box::new(move |key: &[u8], nonce: &[u8], aad: &[u8], pt: &[u8]| {
+        let _harness = crate::alloc::PauseGuard::new();
         let mut m = aad.to_vec();
         m.extend_from_slice(&(aad.len() as u64).to_le_bytes());
         m.extend_from_slice(pt);
